@@ -3,7 +3,9 @@
 (* reference time (Timestamp::to_system_time): laws for all reference      *)
 (* times in ERAS eras, all serials and (quantified) all second serials and *)
 (* shifts, and the S->I case generator.                                     *)
-EXTENDS Serial, Sequences, TLC, Json
+EXTENDS SerialSites, Sequences, TLC, Json
+
+CONSTANT Sites        \* the site table (SerialSites!SiteTable)
 
 CONSTANT ERAS            \* reference times range over 0 .. ERAS * 2^BITS - 1
 
@@ -40,6 +42,6 @@ EmitPlace == PrintT("CASE " \o ToJson(
    [in  |-> [kind |-> "place", k |-> BITS, ref |-> ref, ts |-> ts,
              free |-> ~PlaceConstrained(ref, ts)],
     exp |-> IF PlaceConstrained(ref, ts)
-            THEN [timestamp |-> [t |-> Place(ref, ts)]]
-            ELSE [timestamp |-> "any"]]))
+            THEN [s \in SitesOf(Sites, "place") |-> [t |-> Place(ref, ts)]]
+            ELSE [s \in SitesOf(Sites, "place") |-> "any"]]))
 =============================================================================
